@@ -11,6 +11,26 @@ use std::sync::Mutex;
 use std::time::{Duration, Instant};
 
 static BEAT: AtomicU64 = AtomicU64::new(0);
+/// Start of the program that is being generated or run (milliseconds since the watchdog's epoch; 0 = none).
+static PROGRAM_START_MS: AtomicU64 = AtomicU64::new(0);
+static EPOCH: std::sync::OnceLock<Instant> = std::sync::OnceLock::new();
+
+fn now_ms() -> u64 {
+    EPOCH.get_or_init(Instant::now).elapsed().as_millis() as u64 + 1
+}
+
+/// A new program starts (generator: a new driver; batch: the next file).
+pub fn begin_program() {
+    PROGRAM_START_MS.store(now_ms(), Ordering::Relaxed);
+    beat();
+}
+
+/// Seconds one program may take before it is considered runaway (`VH_PROG_SECS`, default 60): the crate
+/// keeps completing calls but the closed loop of client, scripted broker and generator never settles.
+pub fn program_limit() -> Duration {
+    let secs = std::env::var("VH_PROG_SECS").ok().and_then(|s| s.parse::<u64>().ok()).unwrap_or(60);
+    Duration::from_secs(secs.max(1))
+}
 static INFLIGHT: Mutex<String> = Mutex::new(String::new());
 
 pub const EXIT_HANG: i32 = 3;
@@ -57,16 +77,20 @@ pub fn limit() -> Duration {
 /// (the process exits with `EXIT_HANG` after it).
 pub fn watch(on_hang: impl Fn(&str) + Send + 'static) {
     let limit = limit();
+    let prog_limit = program_limit().as_millis() as u64;
+    let _ = now_ms();
     let _ = std::thread::Builder::new().name("watchdog".into()).spawn(move || {
         let mut seen = BEAT.load(Ordering::Relaxed);
         let mut since = Instant::now();
         loop {
             std::thread::sleep(Duration::from_millis(200));
             let now = BEAT.load(Ordering::Relaxed);
-            if now != seen {
+            let started = PROGRAM_START_MS.load(Ordering::Relaxed);
+            let runaway = started != 0 && now_ms().saturating_sub(started) >= prog_limit;
+            if now != seen && !runaway {
                 seen = now;
                 since = Instant::now();
-            } else if since.elapsed() >= limit {
+            } else if runaway || since.elapsed() >= limit {
                 on_hang(&inflight());
                 std::process::exit(EXIT_HANG);
             }
